@@ -11,6 +11,7 @@ from contracts.paths import _abstract_path
 from pyvc import lib
 from pyvc import sorts as S
 from pyvc.harness import call_contract, contract
+from pyvc.interp import SymObj, Unsupported
 from pyvc.sorts import Py
 
 fl = mod("jsonpath.fluent_api")
@@ -74,3 +75,140 @@ def _register(style):
 
 for _s in ("RELATIVE", "ROOT", "FLAT"):
     _register(_s)
+
+
+# ------------------------------------------------------------------ _fix_sparse_arrays, one level (modular recursion)
+
+fix_abs = z3.Function("projection_fix", Py, Py)
+
+
+def _fix_child(it, fv, args, kwargs):
+    """The recursive call on a child: an uninterpreted function of the child (induction hypothesis)."""
+    return fix_abs(lib.T(it, args[0]))
+
+
+call_contract("specs.projection:fix")(_fix_child)
+
+
+@contract("_fix_sparse_arrays==spec[document value]", ("C19",), [Q + "_fix_sparse_arrays"])
+def _fix_value(ctx):
+    """On a value of the document (not a projection node): copied level by level, never turned into an array."""
+    v = ctx.json("value")
+
+    def code(it):
+        it.recursion_contract = {"jsonpath.fluent_api:_fix_sparse_arrays": _fix_child}
+        return it.run_function(method_fn("_fix_sparse_arrays"), [v], {})
+
+    ctx.equiv("_fix_sparse_arrays[value]", code, lambda it: it.run_function(spec_fn(pspec, "compact_one"), [v, S.FALSE], {}))
+
+
+@contract("_fix_sparse_arrays==spec[projection node]", ("C19",), [Q + "_fix_sparse_arrays"])
+def _fix_node(ctx):
+    """On a projection node with arbitrary members."""
+    keys, vals = ctx.seq("keys"), ctx.seq("vals")
+    ctx.require(z3.Length(keys) == z3.Length(vals))
+    content = Py.dict(keys, vals)
+
+    def code(it):
+        it.recursion_contract = {"jsonpath.fluent_api:_fix_sparse_arrays": _fix_child}
+        it.elem_facts = [(keys, lambda k: z3.Or(Py.is_int(k), Py.is_str(k)))]
+        node = it.alloc(fl._Node, {"v": content}, origin="FRESH")
+        return lib.T(it, it.run_function(method_fn("_fix_sparse_arrays"), [node], {}))  # (an empty node is returned as it is: its content)
+
+    def spec(it):
+        it.elem_facts = [(keys, lambda k: z3.Or(Py.is_int(k), Py.is_str(k)))]
+        return it.run_function(spec_fn(pspec, "compact_one"), [content, S.TRUE], {})
+
+    ctx.equiv("_fix_sparse_arrays[node]", code, spec)
+
+
+def method_fn(name):
+    from pyvc.interp import lookup_function
+
+    return lookup_function(getattr(fl, name))
+
+
+# ------------------------------------------------------------------ _patch_obj against the recursive statement, per tree shape
+# Bounded in ONE dimension only: the length of the location (<= 3) and, with it, the shape of the path
+# through the existing tree (each ancestor position: absent / a projection node / a selected value).
+# Everything else is symbolic: the tokens, the value, every other member of every node on the path.
+
+def _is_node(it, fv, args, kwargs):
+    v = args[0]
+    o = v if isinstance(v, SymObj) else (it.deref(it.to_term(v)) if S.is_term(it.to_term(v)) else None)
+    if isinstance(o, SymObj):
+        return S.mk_bool(o.cls is fl._Node)
+    if it.branch(Py.is_obj(it.to_term(v))):
+        raise Unsupported("is_node of an unknown object")
+    return S.FALSE
+
+
+call_contract("specs.projection:is_node")(_is_node)
+
+
+def _observe_nodes(it):
+    out = []
+    for ref in sorted(it.heap):
+        o = it.heap[ref]
+        if isinstance(o, SymObj) and o.cls is fl._Node:
+            out.append(S.mk_tuple([S.mk_int(ref), o.fields["v"]]))
+    return S.mk_tuple(out)
+
+
+def _register_patch_obj(shape):
+    depth = len(shape) + 1
+
+    @contract(f"_patch_obj==place_at[{'/'.join(shape) or 'one token'}]", ("C19",), [Q + "_patch_obj"], tier="quick")
+    def _c(ctx, shape=shape, depth=depth):
+        toks = [ctx.val(f"token{k}") for k in range(depth)]
+        for t in toks:
+            ctx.require(z3.Or(z3.And(Py.is_int(t), Py.i(t) >= 0), Py.is_str(t)))
+        value = ctx.json("value")
+        bases = []
+        for k in range(len(shape) + 1):
+            ks, vs = ctx.seq(f"node{k}_keys"), ctx.seq(f"node{k}_vals")
+            ctx.require(z3.Length(ks) == z3.Length(vs))
+            bases.append((ks, vs))
+        others = [ctx.val(f"selected{k}") for k in range(len(shape))]
+        for x in others:
+            ctx.require(z3.Not(Py.is_obj(x)))
+
+        def build(it):
+            """The tree before the call: node k is on the path when shape[k-1] == 'node'."""
+            it.elem_facts = [(ks, lambda e: z3.Or(Py.is_int(e), Py.is_str(e))) for ks, _ in bases]
+            nodes = [it.alloc(fl._Node, {"v": Py.dict(*bases[0])}, origin="FRESH")]
+            for k, what in enumerate(shape):
+                cur = nodes[-1]
+                content = cur.fields["v"]
+                j = lib.dict_lookup(it, content, toks[k])
+                if what == "absent":
+                    it.assume(j < 0)
+                    break
+                # present: the member is a node of the path, or a selected value
+                it.assume(j < 0)  # (base content without the member; the member is appended next)
+                if what == "node":
+                    child = it.alloc(fl._Node, {"v": Py.dict(*bases[k + 1])}, origin="FRESH")
+                    member = it.obj_term(child)
+                else:
+                    child, member = None, others[k]
+                cur.fields["v"] = Py.dict(z3.Concat(Py.keys(content), z3.Unit(toks[k])), z3.Concat(Py.vals(content), z3.Unit(member)))
+                if child is None:
+                    break
+                nodes.append(child)
+            return nodes[0]
+
+        def code(it):
+            root = build(it)
+            r = it.run_function(method_fn("_patch_obj"), [S.mk_tuple(toks), root, value], {})
+            return S.mk_tuple([it.to_term(r), _observe_nodes(it)])
+
+        def spec(it):
+            root = build(it)
+            r = it.run_function(spec_fn(pspec, "place_at"), [root, S.mk_tuple(toks), value], {})
+            return S.mk_tuple([it.to_term(r), _observe_nodes(it)])
+
+        ctx.equiv("_patch_obj", code, spec)
+
+
+for _shape in [(), ("absent",), ("node",), ("value",), ("absent", "absent"), ("value", "absent"), ("node", "absent"), ("node", "node"), ("node", "value")]:
+    _register_patch_obj(_shape)
